@@ -4,6 +4,8 @@ import LC.Gen.LangTable
 import LC.Spec.LangExpect
 import LC.Spec.LexSpec
 import LC.Model.V1Tok
+import LC.Model.V1Search
+import LC.Model.V1Glue
 import LC.Model.V2Env
 /- C18 drivers: `lex` (impl-level model over the regenerated table), `chunk` (ChunkIterator). -/
 namespace Driver.Lex
@@ -39,5 +41,34 @@ def goClasses : Classes := { isSpace := LC.V2Env.isSpace, isPunct := LC.V2Env.is
 
 def runV1Tok (bs : List UInt8) : String :=
   joinWith " " ((tokenize goClasses bs).map (fun t => s!"{t.offset}:{hex t.text}"))
+
+/-- stage `v1post`: field = ranges `ss,se,ts,te` separated by `;` (the list after sort.Sort);
+answer = groups separated by `|` -/
+def parseMR (s : String) : Option LC.V1Search.MR :=
+  match (s.splitOn ",").map String.toInt? with
+  | [some a, some b, some c, some d] => some { ss := a, se := b, ts := c, te := d }
+  | _ => none
+
+def showMR (r : LC.V1Search.MR) : String := s!"{r.ss},{r.se},{r.ts},{r.te}"
+
+def runV1Post (field : String) : String :=
+  let parts := if field.isEmpty then [] else field.splitOn ";"
+  match parts.mapM parseMR with
+  | none => "bad-record"
+  | some l => joinWith "|" ((LC.V1Search.post l).map (fun g => joinWith ";" (g.map showMR)))
+
+/-- stage `v1exact`: the exact path of stringclassifier `findMatches`: literal occurrences of the
+value in the unknown text -> token range (as repaired) -> byte range; answer = `offset:extent`
+per occurrence in text order, or `fuzzy` when there is no occurrence -/
+def runV1Exact (unknown value : List UInt8) : String :=
+  let toks := tokenize goClasses unknown
+  let gt := toks.map (fun t => ({ offset := t.offset, len := t.text.length } : LC.V1Glue.Tok))
+  match LC.V1Glue.findAllIndex unknown value with
+  | [] => "fuzzy"
+  | occ => joinWith " " (occ.map (fun ab =>
+      let r := LC.V1Glue.exactRange gt ab.1 ab.2
+      match targetRange toks r.1 (r.2 + 1) with
+      | some xy => s!"{xy.1}:{xy.2 - xy.1}"
+      | none => "PANIC"))
 
 end Driver.V1
